@@ -10,6 +10,8 @@
   subst_names     replace parameter names by argument expressions
   bind_call       parameter -> argument map of a call (keyword and positional forms coincide)
   result_expr     the expression a straight-line function returns (loops folded, locals expanded)
+  derived_names   the names that can denote (a part of) the objects held by given variables (loop / comprehension
+                  targets over them, locals made from them)
 (the summary of boolean scan helpers, `scan_summary`, lives in c20.py next to the rule that uses it)
 """
 from __future__ import annotations
@@ -640,3 +642,41 @@ def slot_reads(expr: ast.AST, cont: str) -> ast.AST:
     wrapper = ast.Expr(value=copy.deepcopy(expr))
     T().visit(wrapper)
     return wrapper.value
+
+
+# ------------------------------------------------------------------------------------ what is made of a value
+def mentions(expr: ast.AST | None, names: set[str]) -> bool:
+    """The expression reads one of `names` (outside nested defs / lambdas)."""
+    return expr is not None and any(isinstance(n, ast.Name) and n.id in names for n in [expr, *walk_own(expr)])
+
+
+def derived_names(nodes: Iterable[ast.AST], seed: set[str]) -> set[str]:
+    """Names that denote (a part of / something made from) the values of `seed` among `nodes` (the nodes of one
+    function body): targets of loops and comprehensions that range over them, locals bound to an expression that
+    reads them, `with ... as` names - to a fixed point.  An over-approximation on purpose: it answers "could this
+    name be one of the objects held by the seed", never "is it"."""
+    nodes = list(nodes)
+    out = set(seed)
+    changed = True
+    while changed:
+        changed = False
+        for n in nodes:
+            pairs: list[tuple[ast.AST | None, ast.AST | None]] = []
+            if isinstance(n, (ast.For, ast.AsyncFor, ast.comprehension)):
+                pairs.append((n.iter, n.target))
+            elif isinstance(n, ast.Assign):
+                pairs += [(n.value, t) for t in n.targets]
+            elif isinstance(n, (ast.AnnAssign, ast.AugAssign)):
+                pairs.append((n.value, n.target))
+            elif isinstance(n, ast.NamedExpr):
+                pairs.append((n.value, n.target))
+            elif isinstance(n, ast.withitem):
+                pairs.append((n.context_expr, n.optional_vars))
+            for src, tgt in pairs:
+                if tgt is None or not mentions(src, out):
+                    continue
+                for t in ast.walk(tgt):
+                    if isinstance(t, ast.Name) and isinstance(t.ctx, ast.Store) and t.id not in out:
+                        out.add(t.id)
+                        changed = True
+    return out
